@@ -80,8 +80,8 @@ Depth(z) == CASE z = "root" -> 0 [] z = "tld" -> 1 [] z = "sub" -> 3 [] z = "hos
 \* Messages: the form says what the upstream returned, exp is the absolute
 \* time at which its signature expires.
 \*  DS:     "ds" (DS RRset for the genuine key, signed by the parent), "nods"
-\*          (signed proof that there is no DS), "badsig" (DS RRset whose
-\*          signature does not verify), "empty" (neither DS nor proof)
+\*          (signed proof that there is no DS), "badsig" / "nodsbad" (DS RRset /
+\*          proof whose signature does not verify), "empty" (neither DS nor proof)
 \*  DNSKEY: "keys" (genuine key set, self-signed), "advkeys" (the attacker's
 \*          key set, self-signed), "badsig", "empty"
 \*  ANS:    "data" (signed by the zone), "unsigned" (zone plain), "bad" (rdata
@@ -98,7 +98,8 @@ HonestVerdict(q) == IF Signed(q) THEN "Secure" ELSE "Insecure"
 Rewritten(m, k, t) ==
   CASE k = "Short"  -> [m EXCEPT !.exp = t + ShortL]    \* honest, little time left
     [] k = "Expire" -> [m EXCEPT !.exp = 0]
-    [] k = "BadSig" -> [m EXCEPT !.form = IF m.t = "ANS" THEN "bad" ELSE "badsig"]
+    [] k = "BadSig" -> [m EXCEPT !.form = IF m.t = "ANS" THEN "bad"
+                                          ELSE IF m.form = "nods" THEN "nodsbad" ELSE "badsig"]
     [] k = "Empty"  -> [m EXCEPT !.form = "empty"]
     [] k = "AdvKey" -> [m EXCEPT !.form = "advkeys"]
     [] k = "Forge"  -> [m EXCEPT !.form = "forged"]
@@ -234,6 +235,8 @@ RecvDs(i) ==
             Set(i, [r EXCEPT !.pc = "kfetch", !.ttl1 = Min(pt, m.exp - now), !.t1 = now, !.dsm = m])
        [] m.form \in {"ds", "badsig"} ->
             Set(i, [r EXCEPT !.pc = "insert", !.build = bogus(Min(pt, BogusV))])
+       [] m.form = "nodsbad" ->   \* the proof's signature does not verify: nsec_for_ds
+            Set(i, [r EXCEPT !.pc = "insert", !.build = bogus(BogusV)])
        [] m.form = "nods" ->
             Set(i, [r EXCEPT !.pc = "insert", !.build =
                       IF SigOk(m, now)
